@@ -21,6 +21,9 @@ pub struct Case {
     pub ctx: Option<BSpec>,
     pub ksf: Option<KsfSpec>,
     pub tape: Tape,
+    /// pass clones of the parameter structs to the API (exercises their Clone impls)
+    #[serde(default)]
+    pub clone_params: bool,
 }
 
 pub fn ksf_for(s: &dyn Proto, argon_default_weight: u32) -> BoxedStrategy<Option<KsfSpec>> {
@@ -45,8 +48,9 @@ pub fn strategy(s: &'static dyn Proto) -> BoxedStrategy<Case> {
         gen::opt_ctx(gen::bytes_param()),
         ksf_for(s, 1),
         gen::tape(),
+        any::<bool>(),
     )
-        .prop_map(|(pw, cred, id_u, id_s, ctx, ksf, tape)| Case {
+        .prop_map(|(pw, cred, id_u, id_s, ctx, ksf, tape, clone_params)| Case {
             pw,
             cred,
             id_u,
@@ -54,6 +58,7 @@ pub fn strategy(s: &'static dyn Proto) -> BoxedStrategy<Case> {
             ctx,
             ksf,
             tape,
+            clone_params,
         })
         .boxed()
 }
@@ -74,6 +79,13 @@ fn trivial(c: &Case) -> bool {
 pub fn check(s: &'static dyn Proto, c: &Case, st: &mut Stats, _k: &KnownFindings) -> CaseResult {
     ksf::set_default_spec(KsfSpec::Identity);
     ksf::journal_reset();
+    set_clone_params(c.clone_params);
+    let r = check_inner(s, c, st);
+    set_clone_params(false);
+    r
+}
+
+fn check_inner(s: &'static dyn Proto, c: &Case, st: &mut Stats) -> CaseResult {
     let pw = c.pw.bytes();
     let cred = c.cred.bytes();
     let ctx = flow::opt(&c.ctx);
@@ -163,6 +175,9 @@ pub fn check(s: &'static dyn Proto, c: &Case, st: &mut Stats, _k: &KnownFindings
     });
     if c.tape.structured() {
         st.label("tape=structured-prefix");
+    }
+    if c.clone_params {
+        st.label("parameter-structs=cloned");
     }
     if cred.len() > 65535 {
         st.label("cred>65535");
